@@ -150,7 +150,7 @@ def separator_specs(tier: str):
 
 
 def specs(tier: str):
-    return separator_specs(tier) + families.c01_specs(tier, kmode="all", extra_sigma="\né", max_inputs=45 if tier == "quick" else 160, extra_trivia=("cm_pred",), sigma_core="aA")
+    return separator_specs(tier) + families.c01_specs(tier, kmode="all", extra_sigma="\né", max_inputs=45 if tier == "quick" else 160, extra_trivia=("cm_pred", "cm_nonatomic", "both_overlap"), sigma_core="aA")
 
 
 def run(tier: str) -> int:
